@@ -399,6 +399,65 @@ func checkC20(p *Prog, rp *Report) {
 					}
 				}
 			}
+			// the same names placed in the other checksum lists of the handle (Checksums-Sha1, -Sha256, ...), the
+			// Files list being clean: whatever the operation does with those lists, it must not leave the directories
+			nst := structOf(nt)
+			for fi := 0; fi < nst.NumFields(); fi++ {
+				f := nst.Field(fi)
+				sl, isSl := f.Type().Underlying().(*types.Slice)
+				if !isSl || f.Name() == "Files" {
+					continue
+				}
+				en, isNamed := sl.Elem().(*types.Named)
+				if !isNamed {
+					continue
+				}
+				es, isStruct := en.Underlying().(*types.Struct)
+				if !isStruct || es.NumFields() == 0 || es.Field(0).Type() != types.Type(fhT) {
+					continue
+				}
+				for _, name := range []string{"../secret", "/etc/passwd", "sub/x.tar"} {
+					m2 := fsMachine(p, true)
+					st2 := initState(m2, "control")
+					id2 := mkHandle(st2, []string{"a.tar.gz", "b.tar.xz"})
+					arr := &ArrayV{}
+					for _, n := range []string{"a.tar.gz", name} {
+						e := zeroVal(en).(*StructV)
+						e.F[0] = mkStruct(fhT, map[string]Val{"Filename": n, "Hash": "h", "Algorithm": "sha"})
+						arr.E = append(arr.E, e)
+					}
+					aid := st2.alloc(types.NewArray(en, 2), arr)
+					st2.Heap[id2].V.(*StructV).F[fi] = SliceV{Obj: aid, Len_: 2, Cap: 2}
+					args2 := []Val{Ptr{Obj: id2}}
+					if op != "Remove" {
+						args2 = append(args2, "/srv/queue")
+					}
+					st2.push(fn, args2, nil)
+					for _, r := range runFS(m2, st2) {
+						if r.st.Status != stRet {
+							srcProblems = append(srcProblems, "undecided: "+retDesc([]*State{r.st}))
+							continue
+						}
+						for _, e := range r.effects {
+							i := strings.Index(e, "(")
+							if strings.HasPrefix(e, "stat") || i < 0 || strings.Contains(e, ")=") {
+								continue
+							}
+							for _, a := range strings.Split(strings.Trim(e[i:], "()"), ",") {
+								a = strings.Trim(a, `"`)
+								if !strings.HasPrefix(a, "/") {
+									continue
+								}
+								c := filepath.Clean(a)
+								if !strings.HasPrefix(c, "/srv/incoming/") && !strings.HasPrefix(c, "/srv/queue/") {
+									srcProblems = append(srcProblems, fmt.Sprintf("with the name %q listed in %s (not in Files) the operation %s acts outside the control file's directory and the destination", name, f.Name(), e))
+								}
+							}
+						}
+					}
+				}
+			}
+			srcProblems = uniq(srcProblems)
 			if !plainOK {
 				srcProblems = append(srcProblems, "an upload listing only plain file names cannot succeed")
 			}
